@@ -25,6 +25,7 @@ def _ops():
     for v in VERTS:
         ops.append(("add_vertex", v))
         ops.append(("delete_vertex", v))
+    ops.append(("add_vertices_one_shot", (1, 2)))        # the vertices handed over as a generator expression / iterator
     for v in VERTS:
         for w in VERTS:
             for l in LABELS:
@@ -42,6 +43,9 @@ def apply_op(F, M, op):
     kind = op[0]
     if kind == "add_vertex":
         F.add_vertices([op[1]]); M.add_vertices([op[1]])
+    elif kind == "add_vertices_one_shot":
+        F.add_vertices(v for v in op[1]); M.add_vertices(list(op[1]))
+        F.add_vertices(iter([0])); M.add_vertices([0])
     elif kind == "delete_vertex":
         if op[1] not in M.V:
             return F, M, False
